@@ -5,7 +5,9 @@ import os
 import checklib as cl
 from props import server_common as S
 
-PROBES = [("normal", "くるまで"), ("normal", "しんかこか"), ("proper", "やまだ"), ("normal", "こーひー")]
+PROBES = [("normal", "くるまで"), ("normal", "しんかこか"), ("proper", "やまだ"), ("normal", "こーひー"),
+          # texts that exist only when a learned compound is one word of the running dictionary (suffix does not follow suffix)
+          ("normal", "かこかてき"), ("normal", "しんかこかてき"), ("normal", "やまかてき")]
 ODD_INPUTS = ["", " ", "くるま", "クルマ", "kuruま", "車", "😀くるま", "くるま\n", "\t", "ー", "っ", "んんん", "a" * 50,
               "くるま" * 30, "あ" * 400, "くるまで　は", "゙か", "ｱｲｳ", "0123", "くるまではしらなかった"]
 ODD_WORDS = [("しない", "しない"), ("あ", "かない"), ("", ""), ("たべない", "食べない"), ("きたない", "汚い"), ("a", "高い"),
@@ -55,6 +57,8 @@ def run_history(run, bindir, dic, wd, tag, hist, fails, stats):
             trace.append(list(op))
             if op[0] == "conv":
                 res = r.conv(op[1], op[2])
+                last_texts = S.texts(res) or []
+                last_conv_session = len(r.sids) - 1
                 if res[0] == "timeout":
                     fails.append(("unanswered", {"kind": "unanswered", "request": "conversion"},
                                   {"history": trace, "request": list(op), "result": "no answer within 5 s"}))
@@ -77,7 +81,11 @@ def run_history(run, bindir, dic, wd, tag, hist, fails, stats):
                     r.confirm(None, op[2], now, raw_sid="00000000-0000-0000-0000-000000000000")
                 else:
                     idx = len(r.sids) - 1 if op[1] in ("last", "again") else 0
-                    r.confirm(idx, op[2], now)
+                    cid = op[2]
+                    if cid.startswith("text:"):     # the candidate with this text in the answer of the latest `conv` op
+                        cid = str(last_texts.index(cid[5:])) if cid[5:] in last_texts else "0"
+                        idx = last_conv_session
+                    r.confirm(idx, cid, now)
                 d = r.srv.dump()
                 if d is not None and len(d["user_entries"]) > n_entries:
                     n_entries = len(d["user_entries"])
@@ -150,6 +158,8 @@ def run(run, replay=None):
         [("register", "CommonNoun", "こーひー", "珈琲"), ("conv", "normal", "こーひー")],   # D7
         [("register", "Guess", "あ", "かない"), ("probe",)],
         [("conv", "normal", "しんかこか"), ("confirm", "last", "1"), ("conv", "normal", "しんかこ")],
+        [("conv", "normal", "かこか"), ("confirm", "last", "text:過去化"), ("conv", "normal", "かこかてき"), ("probe",)],
+        [("conv", "normal", "やまか"), ("confirm", "last", "text:山化"), ("conv", "normal", "やまかてき"), ("probe",)],
     ]
     # readings the user dictionary can store (text-format reading class) but the conversion trie cannot index: accepted,
     # saved, and the server must still start on that user data
